@@ -187,9 +187,15 @@ func (s *state) submitSome(k int) {
 		}
 		seqs := make([]uint32, len(ins))
 		for j := range seqs {
-			seqs[j] = rapid.SampledFrom([]uint32{0xffffffff, 0xfffffffd}).Draw(t, "seq")
+			seqs[j] = rapid.SampledFrom([]uint32{0xffffffff, 0xfffffffd, 0xffffffff, 0xfffffffd, 0xfffffffe, 0, 1, 3, 1<<22 | 1, 1<<31 | 7}).Draw(t, "seq")
 		}
-		tx := pe.BuildTx(1, ins, seqs, outs, 0)
+		// versions: consensus reads the version as unsigned when deciding whether relative locks
+		// apply (negative versions are >= 2); a pool that accepts non-standard transactions lets them in.
+		// lock times around the tip height and the median time past
+		version := rapid.SampledFrom([]int32{1, 1, 2, 2, 1, 2, -1, -2147483648, 2147483647}).Draw(t, "version")
+		tip := e.Tip()
+		lockTime := rapid.SampledFrom([]uint32{0, 0, 0, 0, uint32(tip.Height), uint32(tip.Height + 1), uint32(tip.MTP()), uint32(tip.MTP() + 1), uint32(tip.MTP() + 1000)}).Draw(t, "lockTime")
+		tx := pe.BuildTx(version, ins, seqs, outs, lockTime)
 		s.addKnown(tx)
 		acc, err := e.Pool.ProcessTransaction(btcutil.NewTx(tx), false, false, 0)
 		s.hist = append(s.hist, fmt.Sprintf("submit %s kind=%d fee=%d -> accepted=%d err=%v", tx.TxHash().String()[:8], kind, fee, len(acc), err))
@@ -224,7 +230,30 @@ func TestBlockTemplate(t *testing.T) {
 		rounds := rapid.IntRange(1, 3).Draw(t, "rounds")
 		for r := 0; r < rounds; r++ {
 			s.submitSome(rapid.IntRange(2, ev.Scale(10, 16)).Draw(t, "submissions"))
-			switch rapid.IntRange(0, 4).Draw(t, "between") {
+			switch rapid.IntRange(0, 5).Draw(t, "between") {
+			case 5: // the tip is invalidated by hand: the chain shrinks by one block and nothing replaces it
+				tip := e.Tip()
+				if int(tip.Height) > int(mat)+3 && !e.Sel.ManualRelated(tip) {
+					// the success clause speaks about transactions admitted on the current chain with the
+					// tip not moving backwards since: start from an empty pool (the handler re-admits the
+					// transactions of the disconnected block on the shorter chain)
+					for _, d := range e.PoolTxs() {
+						e.Pool.RemoveTransaction(d.Tx, true)
+					}
+					e.Sel.Invalidate(tip)
+					h := tip.Hash
+					if err := e.Chain.InvalidateBlock(&h); err != nil {
+						t.Fatalf("InvalidateBlock(tip): %v", err)
+					}
+					if err := ce.CheckTip(e.Env, e.Sel); err != nil {
+						t.Fatalf("after InvalidateBlock(tip): %v", err)
+					}
+					s.registerChainCoins()
+					s.hist = append(s.hist, "tip invalidated by hand")
+					recTmpl.Count("with-tip-invalidated", 1)
+					// a few submissions right on the shortened chain
+					s.submitSome(rapid.IntRange(1, 6).Draw(t, "afterInvalidate"))
+				}
 			case 0: // mine part of the pool
 				all := pe.TopoOrder(e.PoolTxs())
 				k := rapid.IntRange(0, len(all)).Draw(t, "minePrefix")
